@@ -269,6 +269,36 @@ fn check_large(c: &LargeCase) -> CheckResult {
             }
         }
     }
+    // scale equivariance (large values): (sQ, sD, sP) provides s times the service at s-multiples
+    for f in [65_537u64, 10_000_000] {
+        if p <= 300 {
+            let bigsup = match &c.supply {
+                SupplySpec::Periodic { q, p } => SupplySpec::Periodic { q: q * f, p: p * f },
+                SupplySpec::Constrained { q, d: dl, p } => SupplySpec::Constrained { q: q * f, d: dl * f, p: p * f },
+                _ => unreachable!(),
+            }
+            .build();
+            for &x in c.deltas.iter().take(6) {
+                let x = x % (40 * p + 1);
+                let (small, large, st_small, st_large) = guard(|| {
+                    (
+                        su(sup.provided_service(d(x))),
+                        su(bigsup.provided_service(d(x * f))),
+                        du(sup.service_time(s(x))),
+                        du(bigsup.service_time(s(x * f))),
+                    )
+                })
+                .map_err(|e| format!("scaled reservation panicked: {}", e))?;
+                if large != small * f {
+                    return Err(format!("reservation scaled by {}: provided_service({}) = {} but {} * provided_service({}) = {}", f, x * f, large, f, x, small * f));
+                }
+                if st_large != st_small * f {
+                    return Err(format!("reservation scaled by {}: service_time({}) = {} but {} * service_time({}) = {}", f, x * f, st_large, f, x, st_small * f));
+                }
+            }
+            out.label("scale-equivariance-checked");
+        }
+    }
     out.nontrivial = q < p && c.deltas.iter().any(|x| *x >= 2 * p);
     out.label_if(p > 1000, "large-period");
     Ok(out)
